@@ -94,5 +94,8 @@ package chain
 //@   requires[verified] transaction != nil && transaction.verified
 //@   modifies self.momentumStoreAt, self.frontierStore, self.accountStoreAt
 
+//@ model MomentumPool rollbacks int   // ghost: number of RollbackTo calls so far
 //@ func MomentumPool.RollbackTo(self, insertLocker, identifier)
-//@   modifies self.momentumStoreAt, self.frontierStore, self.accountStoreAt
+//@   ensures result == nil ==> self.rollbacks == old(self.rollbacks) + 1
+//@   ensures result != nil ==> self.rollbacks == old(self.rollbacks)
+//@   modifies self.momentumStoreAt, self.frontierStore, self.accountStoreAt, self.rollbacks
